@@ -283,7 +283,7 @@ def workbook_pipe_case(ctx, grids, which: str, data: bytes):
 NAME_ATOMS = [".", ".", "a", "b", "Form", " ", "-", "md", "csv", "xlsx", "XLSX", "tar", "gz", "é", "v2", "_"]
 
 
-def path_parts_case(ctx, name: str):
+def path_parts_case(ctx, name: str, rng_dir: str | None = None):
     """`Backends.pathStem` / `pathSuffix` vs pathlib (and vs the harness's own `path_stem`)."""
     from pathlib import PurePosixPath
 
@@ -293,9 +293,11 @@ def path_parts_case(ctx, name: str):
     if pp.name != name:
         return
     py = {"stem": pp.stem, "suffix": pp.suffix}
-    lean = ctx.driver.call("be.path_parts", name=name)
+    full = rng_dir + "/" + name if rng_dir is not None else name
+    py["name"] = name
+    lean = ctx.driver.call("be.path_parts", name=full)
     ctx.count("fn:path_parts")
-    compare(ctx, "Backends.pathStem/pathSuffix vs PurePath.stem/suffix", {"name": name}, py, lean)
+    compare(ctx, "Backends.pathName/pathStem/pathSuffix vs PurePath.name/stem/suffix", {"path": full}, py, lean)
     compare(ctx, "harness path_stem vs PurePath.stem", {"name": name}, pp.stem, C.path_stem(name))
 
 
@@ -307,7 +309,9 @@ def get_xlsform_case(ctx, kind: str, text: str, channel: str, file_type, stem: s
     from pyxform.xls2json_backends import get_xlsform
 
     name = stem + suffix if suffix is not None else None
-    arg, cleanup, gives = C.deliver(kind, text, channel, scratch, stem=stem, name=name)
+    subdirs = C.unusual_dirs(random.Random(len(text)), C.DIR_KINDS[len(text) % len(C.DIR_KINDS)]) if channel in ("path", "pathlike") else None
+    arg, cleanup, gives = C.deliver(kind, text, channel, scratch, stem=stem, name=name, subdirs=subdirs)
+    path_str = str(arg) if gives else None
     try:
         try:
             dd = get_xlsform(arg, file_type=file_type)
@@ -324,7 +328,7 @@ def get_xlsform_case(ctx, kind: str, text: str, channel: str, file_type, stem: s
     finally:
         cleanup()
     lean = ctx.driver.call("be.get_xlsform", text=text, channel="path" if gives else channel.split("_")[0],
-                           name=(name if name is not None else stem + C.EXT[kind]), file_type=file_type)
+                           name=(path_str if gives else "x.md"), file_type=file_type)
     if lean["outcome"] == "unsupported":
         ctx.count("fn:get_xlsform:unsupported")
         return
@@ -354,4 +358,5 @@ def explore_fn(ctx, rng: random.Random, n: int, scratch):
             if ch != "str" or "\x00" not in text:
                 sfx = rng.choice([None, None, ".MD", ".Csv", ".txt", "", ".tar.md", ".", ".x.csv"]) if ch in ("path", "pathlike") else None
                 get_xlsform_case(ctx, kind, text, ch, rng.choice([None, None, ".md", ".csv"]), rng.choice(["st em", ".hid", "a.b", "x"]), scratch, suffix=sfx)
-        path_parts_case(ctx, rand_text(rng, NAME_ATOMS, 6))
+        path_parts_case(ctx, rand_text(rng, NAME_ATOMS, 6),
+                        rng.choice([None, "/tmp/x", "rel/v1.2/forms.md", "/" + "/".join(C.unusual_dirs(rng, rng.choice(C.DIR_KINDS[3:])))]))
